@@ -583,7 +583,7 @@ class Qcow2Suite(Suite):
                 "Open Scope string_scope.\nOpen Scope list_scope.\nOpen Scope Z_scope.\n")
 
     def generate(self, rng, tier):
-        n, nm = (800, 250) if tier == "thorough" else (100, 35)
+        n, nm = (1600, 500) if tier == "thorough" else (100, 35)
         return [q_gen(rng, tier) for _ in range(n)] + [q_gen(rng, tier, malformed=True) for _ in range(nm)]
 
     def impl(self, case):
@@ -955,7 +955,7 @@ class VhdxSuite(Suite):
     preamble = Qcow2Suite.preamble
 
     def generate(self, rng, tier):
-        n, nm = (450, 150) if tier == "thorough" else (60, 25)
+        n, nm = (900, 300) if tier == "thorough" else (60, 25)
         return [x_gen(rng, tier) for _ in range(n)] + [x_gen(rng, tier, malformed=True) for _ in range(nm)]
 
     def impl(self, case):
@@ -1312,7 +1312,7 @@ class VmdkSuite(Suite):
     preamble = Qcow2Suite.preamble
 
     def generate(self, rng, tier):
-        n, ns, nm = (600, 350, 150) if tier == "thorough" else (80, 45, 20)
+        n, ns, nm = (1200, 700, 300) if tier == "thorough" else (80, 45, 20)
         out = [{"kind": "text", "malformed": None, "desc": d_gen(rng, tier)} for _ in range(n)]
         out += [s_gen(rng, tier) for _ in range(ns)] + [s_gen(rng, tier, malformed=True) for _ in range(nm)]
         return out
@@ -1542,7 +1542,7 @@ class HdrsSuite(Suite):
     preamble = Qcow2Suite.preamble
 
     def generate(self, rng, tier):
-        n, nm = (500, 120) if tier == "thorough" else (70, 20)
+        n, nm = (1000, 250) if tier == "thorough" else (70, 20)
         return [h_gen(rng, tier) for _ in range(n)] + [h_gen(rng, tier, malformed=True) for _ in range(nm)]
 
     def impl(self, case):
@@ -1755,7 +1755,7 @@ class HddSuite(Suite):
     preamble = Qcow2Suite.preamble
 
     def generate(self, rng, tier):
-        n, nm = (600, 150) if tier == "thorough" else (80, 25)
+        n, nm = (1200, 300) if tier == "thorough" else (80, 25)
         return [p_gen(rng, tier) for _ in range(n)] + [p_gen(rng, tier, malformed=True) for _ in range(nm)]
 
     def impl(self, case):
